@@ -15,11 +15,12 @@ Theorem C16_consumers_subset_assignment : forall grp evs c, let s := state_after
 Proof. exact consumers_current. Qed.
 Print Assumptions C16_consumers_subset_assignment.
 
-(* A consumer is created only by the step that handles a successful SyncGroup reply, for a partition of that reply, with the
+(* A consumer is created only by the step that handles a successful SyncGroup reply (also when a later constructor of the same
+   loop raises: SOkRaise), for a partition of that reply, with the
    generation and member id the member holds then (and keeps through that step); never once stop() has been called. *)
 Theorem C16_commit_identity : forall grp evs e cid t p g m, let s := state_after grp evs in
   In (OStartC cid t p g m) (snd (step s e)) ->
-  exists rid asg, e = ESync rid (SOk asg) /\ In (t, p) asg /\ g = generation s /\ m = member s /\
+  exists rid asg, (e = ESync rid (SOk asg) \/ exists n, e = ESync rid (SOkRaise asg n)) /\ In (t, p) asg /\ g = generation s /\ m = member s /\
                   stopping s = false /\ stop_requested s = false /\ is_group s = true /\
                   generation (fst (step s e)) = generation s /\ member (fst (step s e)) = member s.
 Proof. exact commit_identity. Qed.
